@@ -158,8 +158,9 @@ def run_shard(spec):
                             continue
                         res['evaluations'] += 1
                         out = os.path.join(d, 'out.s')
-                        if os.path.exists(out):
-                            os.remove(out)
+                        # the output path already holds something longer (an earlier, bigger build): it must be replaced entirely
+                        with open(out, 'wb') as f:
+                            f.write(b'halt\nstale_label_from_an_earlier_build:\n' * 4000 if n % 2 else b'')
                         opts = ['-m', str(m), '-s', str(sz)] + (['--unchecked'] if unchecked else [])
                         case = {'source': src, 'options': opts, 'what': 'CLI vs library'}
                         e = dict(os.environ, PYTHONPATH=env.REPO)
